@@ -27,6 +27,7 @@ RULE = ('G-frame DataFrames (1-3 columns, every recognised non-tz dtype '
 RULE += ' ' + 'Also (SQLite source): text with NUL characters (U+0001 in the case stands for U+0000), constructed columns of 21-26 distinct strings whose shortest and longest hold a NUL, and a composite UNIQUE constraint over the first two columns whenever their value pairs are distinct.'
 RULE += ' ' + 'Round 6 (SQLite source): a composite PRIMARY KEY over the first two columns and single text PRIMARY KEYs, with NULLs put into key columns by construction.'
 RULE += ' ' + 'Round 7: column names val, VAL, 2019, 7, n; even-length frames label all-digit column names with the integer itself.'
+RULE += ' ' + 'Round 8: a third of the pandas cases discover a null-free earlier version of the frame first and derive the frame under test from it (copy, then mask); SQLite integer columns declared numeric / number, holding 2**53+1 and -(2**53)-3 in even-length tables.'
 ASSUMPTIONS = ['no_duplicates on boolean and date fields: only the sound '
                'direction is asserted (statement, docstring and code '
                'disagree on whether it is discovered there)',
